@@ -77,7 +77,9 @@ func (s *Server) initProtocol() {
 	s.protocolMu.Lock()
 	s.Protocol = p
 	s.protocolMu.Unlock()
-	s.callbackContext.DoneChan = s.DoneChan()
+	// Callbacks run inside the receive loop, and DoneChan only closes once that
+	// loop has ended: a callback waiting for it would wait for itself
+	s.callbackContext.DoneChan = s.ShutdownChan()
 }
 
 func (s *Server) ProtocolInstance() *protocol.Protocol {
